@@ -99,6 +99,18 @@ func (c *clusterT) newConfig() *config.Config {
 	eng := config.NewEngine()
 	eng.Config = map[string]interface{}{"tableSize": uint64(optInt(o, "tsize", 1<<20))}
 	cfg.DMaps.Engine = eng
+	if name, ok := o["cdm"]; ok {
+		// a DMap with its own configuration: everything as above except the idle window
+		cfg.DMaps.Custom = map[string]config.DMap{name: {
+			Engine:          eng,
+			MaxIdleDuration: time.Duration(optInt(o, "cidle_ms", 0)) * time.Millisecond,
+			TTLDuration:     cfg.DMaps.TTLDuration,
+			MaxKeys:         cfg.DMaps.MaxKeys,
+			MaxInuse:        cfg.DMaps.MaxInuse,
+			LRUSamples:      cfg.DMaps.LRUSamples,
+			EvictionPolicy:  cfg.DMaps.EvictionPolicy,
+		}}
+	}
 	return cfg
 }
 
@@ -439,7 +451,7 @@ func init() {
 		}
 		iv := view.db.VerifInternals()
 		hkey := partitions.HKey(a[0], string(unhx(a[1])))
-		_ = iv.Primary.PartitionIDByHKey(hkey)
+		partID := iv.Primary.PartitionIDByHKey(hkey)
 		idx := func(name string) string {
 			for i, m := range cl.members {
 				if m.addr == name {
@@ -461,7 +473,7 @@ func init() {
 			}
 			return strings.Join(x, ",")
 		}
-		return fmt.Sprintf("route pick=%s/%s", j(ps), j(bs))
+		return fmt.Sprintf("route pick=%s/%s part=%d", j(ps), j(bs), partID)
 	})
 	// wb <dmap> <keyhex>: every member's primary and backup copy
 	register("wb", func(a []string) string {
@@ -612,6 +624,77 @@ func init() {
 	})
 
 	// ---- data operations: <op> <path> <member> <dmap> <keyhex> ...
+	// c.putv: c.put that also reports what the LRU policy evicted to make room, and the number of partitions
+	// the key's owner owns:  "<result> pick=<victim keys|-> owned=<n>"
+	register("c.putv", func(a []string) string {
+		name, key := a[2], string(unhx(a[3]))
+		before := map[string]bool{}
+		ev0 := dmap.EvictedTotal.Read()
+		for _, m := range cl.members {
+			if m.alive {
+				for _, k := range m.db.VerifInternals().DMap.VerifKeys(name, partitions.PRIMARY) {
+					before[k] = true
+				}
+			}
+		}
+		r := handlers["c.put"](a)
+		n := int(dmap.EvictedTotal.Read() - ev0)
+		after := map[string]bool{}
+		owned := uint64(0)
+		hkey := partitions.HKey(name, key)
+		for _, m := range cl.members {
+			if m.alive {
+				iv := m.db.VerifInternals()
+				for _, k := range iv.DMap.VerifKeys(name, partitions.PRIMARY) {
+					after[k] = true
+				}
+				if iv.Primary.PartitionByHKey(hkey).Owner().CompareByName(iv.RT.This()) {
+					owned = iv.RT.OwnedPartitionCount()
+				}
+			}
+		}
+		var victims []string
+		for k := range before {
+			if !after[k] && k != key {
+				victims = append(victims, hx([]byte(k)))
+			}
+		}
+		sort.Strings(victims)
+		for len(victims) < n {
+			victims = append(victims, hx([]byte(key))) // the key itself was evicted and written again
+		}
+		v := "-"
+		if len(victims) > 0 {
+			v = strings.Join(victims, ",")
+		}
+		return fmt.Sprintf("%s pick=%s owned=%d", r, v, owned)
+	})
+	// wb.stats <dmap>: per member the number of owned partitions and, per primary fragment, length and bytes in use
+	register("wb.stats", func(a []string) string {
+		var out []string
+		for i, m := range cl.members {
+			if !m.alive {
+				continue
+			}
+			iv := m.db.VerifInternals()
+			_, per := iv.DMap.VerifStats(a[0], partitions.PRIMARY)
+			var ids []int
+			for p := range per {
+				ids = append(ids, int(p))
+			}
+			sort.Ints(ids)
+			var ps []string
+			for _, p := range ids {
+				ps = append(ps, fmt.Sprintf("%d:%d:%d", p, per[uint64(p)].Length, per[uint64(p)].Inuse))
+			}
+			x := "-"
+			if len(ps) > 0 {
+				x = strings.Join(ps, ",")
+			}
+			out = append(out, fmt.Sprintf("m%d:owned=%d;%s", i, iv.RT.OwnedPartitionCount(), x))
+		}
+		return strings.Join(out, " ")
+	})
 	register("c.put", clusterOp(func(m *member, path, name string, a []string) string {
 		key, val := string(unhx(a[0])), unhx(a[1])
 		o := parsePutOpts(a[2:])
